@@ -198,14 +198,16 @@ def run_case(case: dict) -> dict:
                 saved = (lcfg.local_search_probability, lcfg.local_search_same_datatype,
                          lcfg.local_search_different_datatype, lcfg.local_search_collections,
                          lcfg.local_search_complex_objects, lcfg.local_search_time)
-                lcfg.local_search_probability = 0.6
+                lcfg.local_search_probability = 0.2
                 lcfg.local_search_same_datatype = op["pos"] < 0.7
                 lcfg.local_search_different_datatype = op["pos"] > 0.3
                 lcfg.local_search_collections = True
                 lcfg.local_search_complex_objects = True
                 lcfg.local_search_time = 10**9
                 try:
-                    suite = env.strategy.create_test_suite([c for c in pool if c.test_case.size() > 0])
+                    members = [c for c in (a, pool[op["b"] % len(pool)]) if c.test_case.size() > 0]
+                    members = members[:1] if len(members) == 2 and members[0] is members[1] else members
+                    suite = env.strategy.create_test_suite(members)
                     suite.get_fitness()
                     timer = LocalSearchTimer()
                     timer.start_timer()
